@@ -18,8 +18,9 @@ RULE = ("Engine K as C12 with consumer scripts biased to stalls (short, long, re
         "retrieval for a collection time (the head keeps waiting at the exit: the belt stays stopped until it is collected; deviations "
         "after such a hold carry the flag held_retrieval), or it withdraws the granted retrieval zero to two kernel hops after "
         "the grant (what a FIRST_AVAILABLE fan-in node does to the edges it did not pick; the head then waits unreserved) and "
-        "asks again later. Non-trivial: a stall happened while another item was on the belt or an admission request was pending.")
-ASSUMPTIONS = ["the consumer gets at the grant instant and the producer puts at the grant instant (as every library node does)",
+        "asks again later; the source side may likewise withdraw a granted admission zero to two kernel hops after the grant "
+        "(a FIRST_AVAILABLE fan-out node) and ask again later - nothing enters. Non-trivial: a stall happened while another item was on the belt or an admission request was pending.")
+ASSUMPTIONS = ["unless the case says otherwise (collection time, withdrawn retrieval / admission) the consumer gets and the producer puts at the grant instant",
                "times compared with 1e-9 relative tolerance",
                "slotted conveyor = continuous model with item length 1 slot, length capacity slots, speed 1/delay"]
 
@@ -44,7 +45,7 @@ def model_for(case, admit_first=()):
         L, il, v = float(c["capacity"]), 1.0, 1.0 / c["delay"]
         cap = c["capacity"]
     return simulate(L, il, v, cap, bool(c.get("acc", 1)), case["producer"], case["consumer"], case.get("T", 400.0), admit_first,
-                    chold=case.get("chold"), ccancel=case.get("ccancel"))
+                    chold=case.get("chold"), ccancel=case.get("ccancel"), pcancel=case.get("pcancel"))
 
 
 def compare(case, r, m):
@@ -99,13 +100,17 @@ def run_case(case):
         # belt) are not fixed by the statement: flip the resolution of the tie at the deviation instant and retry
         tie = next((j for j, tt in enumerate(m["ties"]) if close(tt, d[0]) and j not in chosen), None)
         if tie is None:
+            # a tie whose admission was withdrawn again brings no item: its resolution only shows in later instants
+            wd = list(getattr(r, "t_cancel_put", ())) + list(m.get("withdrawn", ()))
+            tie = next((j for j, tt in enumerate(m["ties"]) if j not in chosen and tt <= d[0] and any(close(tt, x) for x in wd)), None)
+        if tie is None:
             break
         # "admission before the stall" is a legitimate resolution of the tie unless the library's own same-time-step rule
         # decides it robustly: the arriving head was never delayed (its travel is exactly length/speed, no stall
         # arithmetic involved) and the request instant is not earlier than the arrival instant as a float.  In that case
         # the unchanged library refuses in either event order, and so does the model.
         idx = d[3]
-        if d[1] == "admit" and idx < len(r.req_put):
+        if d[1] == "admit" and idx < len(r.req_put) and close(m["ties"][tie], d[0]):
             robust = False
             for hi, it in enumerate(r.items):
                 v = r.t_offer.get(id(it))
